@@ -307,27 +307,31 @@ func collKindOf[K any](name string, cfg CollCfg, conv collConv[K], mk func() art
 	k.PrefixOf = func(a, p K) bool { return strings.HasPrefix(conv.from(a), conv.from(p)) }
 	k.PrefixArgOK = func(p K) bool {
 		for _, c := range conv.from(p) {
-			if !(c >= 'a' && c <= 'z' || c >= 'A' && c <= 'Z') {
+			if !InPrefixScope(c) {
 				return false
 			}
 		}
 		return true
 	}
 	k.PrefixQueries = func(r *rng.R, a K) []K {
-		s := conv.from(a)
+		w := []rune(conv.from(a))
 		var out []K
-		for _, c := range []int{0, 1, len(s) / 2, len(s) - 1, len(s), 4, 5, 6} {
-			if c >= 0 && c <= len(s) {
-				out = append(out, conv.to(s[:c]))
+		for _, c := range []int{0, 1, len(w) / 2, len(w) - 1, len(w), 2, 3, 4, 5, 6} {
+			if c >= 0 && c <= len(w) {
+				out = append(out, conv.to(string(w[:c])))
 			}
 		}
-		out = append(out, conv.to(s+"a"), conv.to(s+"Z"))
-		if len(s) > 0 {
-			w := []byte(s)
-			i := r.Intn(len(w))
-			w[i] ^= 0x20 // flip ASCII case
-			out = append(out, conv.to(string(w)))
-			w2 := []byte(s)
+		out = append(out, conv.to(string(w)+"a"), conv.to(string(w)+"Z"), conv.to(string(w)+"中"))
+		if len(w) > 0 {
+			w1 := append([]rune{}, w...)
+			i := r.Intn(len(w1))
+			if w1[i] < 0x80 {
+				w1[i] ^= 0x20 // flip ASCII case
+			} else {
+				w1[i]++
+			}
+			out = append(out, conv.to(string(w1)))
+			w2 := append([]rune{}, w...)
 			w2[len(w2)-1] = 'q'
 			out = append(out, conv.to(string(w2)))
 		}
@@ -350,10 +354,21 @@ func collKindOf[K any](name string, cfg CollCfg, conv collConv[K], mk func() art
 	return k
 }
 
+// InPrefixScope: characters without contractions or ignorables under the
+// root/en collators: ASCII letters, basic Greek letters, CJK unified
+// ideographs U+4E00..U+4FFF (3-byte implicit primary weights).
+func InPrefixScope(c rune) bool {
+	return c >= 'a' && c <= 'z' || c >= 'A' && c <= 'Z' || c >= 0x3B1 && c <= 0x3C9 && c != 0x3C2 || c >= 0x391 && c <= 0x3A9 && c != 0x3A2 || c >= 0x4E00 && c <= 0x4FFF
+}
+
+var collScopeHan = []rune("中国人文字漢日本語一二三")
+
 // CollPrefixPool draws contents inside C04's scope for collation trees:
-// ASCII letters only, with shared prefixes and case variants.
+// ASCII letters, Greek letters and Han ideographs, with shared prefixes and
+// case variants.
 func CollPrefixPool(r *rng.R, n int) []string {
 	var out []string
+	mode := r.Intn(4)
 	word := func(n int) string {
 		b := make([]rune, n)
 		al := collASCII
@@ -361,7 +376,16 @@ func CollPrefixPool(r *rng.R, n int) []string {
 			al = []rune("abAB")
 		}
 		for i := range b {
-			b[i] = al[r.Intn(len(al))]
+			switch {
+			case mode == 1 && r.Chance(1, 2):
+				b[i] = collScopeHan[r.Intn(len(collScopeHan))]
+			case mode == 2 && r.Chance(1, 3):
+				b[i] = rune(0x3B1 + r.Intn(17))
+			case mode == 3 && r.Chance(1, 4):
+				b[i] = rune(0x4E00 + r.Intn(0x200))
+			default:
+				b[i] = al[r.Intn(len(al))]
+			}
 		}
 		return string(b)
 	}
@@ -408,6 +432,15 @@ func CollBytes(cfg CollCfg) *Kind[[]byte] {
 	k.Shorten = func(b []byte, n int) []byte { return b[:n] }
 	k.KeyLen = func(b []byte) int { return len(b) }
 	return k
+}
+
+// CollStringDefault: a string-keyed collation tree created without any option
+// (the library's own default collator object).
+func CollStringDefault() *Kind[string] {
+	cfg := CollCfg{Name: "default", Tag: "und"}
+	return collKindOf[string]("coll/string/default", cfg,
+		collConv[string]{to: func(s string) string { return s }, from: func(s string) string { return s }},
+		func() art.Tree[string, uint64] { return art.NewCollationSortedTree[string, uint64]() }, false)
 }
 
 // CollRunes: WithCollator does not type-check for []rune, so rune-slice trees
